@@ -74,6 +74,13 @@ def generate(seed, tier="quick"):
                     if rng.random() < 0.25 and op == "eq":
                         prev = V.gen_mutable(rng, prof)[0]
                         arg = V.expr(prev)
+                    elif rng.random() < 0.4 and op == "in":
+                        # the snapshot already holds the value that is compared (and mutated afterwards), plus one that is never tested
+                        prev = ["list", [val, ["int", 12345]]]
+                        arg = V.expr(prev)
+                    elif rng.random() < 0.3 and op in ("le", "ge"):
+                        prev = val
+                        arg = V.expr(prev)
                     sites[sid] = {"op": op, "place": rng.choice(["direct", "direct", "helper_arg"]) if op != "item" else "direct", "arg": arg, "prev": prev}
                 eid_n += 1
                 e = {"t": "cmp", "eid": f"e{eid_n}", "site": sid, "var": var, "style": "rec"}
@@ -96,7 +103,7 @@ def generate(seed, tier="quick"):
         tests.append({"name": f"test_t{ti}", "events": events})
     # direct sites may be used by one textual event only: guaranteed by construction (fresh site per comparison)
     prog = {"files": [{"name": "test_a.py", "header": W.gen_layout(rng), "sites": sites, "tests": tests}], "pyproject": None}
-    approved = ["create", "fix"] if rng.random() < 0.7 else ["create"]
+    approved = rng.choice([["create", "fix"], ["create", "fix"], ["create"], ["create", "fix", "trim"], ["trim"], ["fix", "trim"]])
     driver = "plugin" if sub(seed, "driver").random() < 0.08 else "inline"
     return {"program": prog, "approved": approved, "driver": driver, "fmt": draw_fmt(sub(seed, "fmt"))}
 
